@@ -217,6 +217,12 @@ func encodeFrameForAnimation(img image.Image, isLossless bool, quality int) ([]b
 		Lossless: isLossless,
 		Quality:  float32(quality),
 		Method:   4,
+		// Alpha of lossy frames: documented defaults (lossless compression,
+		// fast filter, quality 100). The zero values would mean "quantise the
+		// alpha plane to two levels".
+		AlphaCompression: -1,
+		AlphaFiltering:   -1,
+		AlphaQuality:     -1,
 	}
 	if isLossless {
 		bs, _, err := encodeLossless(img, opts)
@@ -247,6 +253,10 @@ func simpleEncodeForAnimation(img image.Image, isLossless bool, quality float32)
 		Lossless: isLossless,
 		Quality:  quality,
 		Method:   4,
+		// Documented alpha defaults (see encodeFrameForAnimation).
+		AlphaCompression: -1,
+		AlphaFiltering:   -1,
+		AlphaQuality:     -1,
 	}
 	if err := Encode(&buf, img, opts); err != nil {
 		return nil, err
